@@ -1,3 +1,17 @@
-import UtilModel.Core.LTS
-open UtilModel
+import UtilModel.RefCount.Props
+open UtilModel UtilModel.RefCount
 #print axioms UtilModel.accepts_sound
+#print axioms UtilModel.accepted_satisfies
+#print axioms UtilModel.monitor_of_simulation
+#print axioms RefCount.reachable_inv
+#print axioms RefCount.step_acct
+#print axioms RefCount.flip_cases
+#print axioms RefCount.rel_exact
+#print axioms RefCount.rel_at_most_once
+#print axioms RefCount.rel_only_returned
+#print axioms RefCount.rel_not_while_held
+#print axioms RefCount.unreleased_is_current
+#print axioms RefCount.quiescent_settled
+#print axioms RefCount.rel_eventually
+#print axioms RefCount.stale_released_in_store
+#print axioms RefCount.rel_after_hidden
